@@ -65,7 +65,21 @@ func caseLines(s scn, ro *runOut) []string {
 			lines = append(lines, "http", "outcome")
 		}
 		if ro.upLine != "" {
-			lines = append(lines, ro.upLine)
+			up := ro.upLine
+			if strings.HasPrefix(up, "unpack kind=gz there=0 ") {
+				// File.Unpack returns early when the unpacked file is already there: "there" is what the run found
+				// at its begin marker — an earlier, uninterrupted run of the same operation (history `pre` beyond
+				// the operation's last call) has already published it
+				if d, ok := parseDest(ro.destLine); ok {
+					for _, e := range ro.res.Init {
+						if strings.HasPrefix(e, d.path+"|") {
+							up = strings.Replace(up, "there=0", "there=1", 1)
+							break
+						}
+					}
+				}
+			}
+			lines = append(lines, up)
 		}
 	}
 	if pl := progLine(s); pl != "" {
